@@ -22,6 +22,12 @@
 (*                       (a condition left behind when the equation was deleted): the      *)
 (*                       library tolerates that, and such a condition stores NO series -   *)
 (*                       the stored series are the model's variables, each horizon+1 long. *)
+(*   SetTrace(w)         solver.TraceStep = a period inside (1..horizon) / outside the     *)
+(*                       horizon, set before the solve (convergence tracing of that step)  *)
+(*   SetSteady           solver.ParameterSolveInitialSteadyState = True before the solve    *)
+(*                       Options change how the solver works, never what the results are   *)
+(*                       made of: whatever options are on, a successful solve leaves       *)
+(*                       exactly the model's variables plus k and t, each horizon+1 long.  *)
 (*   StateHorizon(place, h)  the user states the horizon h: place "block" = a MaxTime line  *)
 (*                       in the equation text, "model" = Model.MaxTime (which Model.main()   *)
 (*                       writes as the MaxTime line of the block it generates), "solver" =   *)
@@ -153,9 +159,13 @@ VARIABLES phase,     \* "build" | "run" (the holder is a solver's, after a solve
           table,     \* the table of the last Render, NoTable once the holder has been changed
           stated,    \* [block, solver]: where a horizon has been stated, each [is, h]
           conds,     \* initial conditions written into the equation block: set of [name, sp]
+          opts,      \* solver options set before the solve: [trace, steady]
           hist       \* history of calls (see Op)
 
-vars == << phase, holder, solved, table, stated, conds, hist >>
+vars == << phase, holder, solved, table, stated, conds, opts, hist >>
+
+NoOpts == [trace |-> "none", steady |-> FALSE]
+TraceWheres == {"inside", "outside"}
 
 Op(op, n, len, kind, fmt, h) ==
     [op |-> op, name |-> n, len |-> len, kind |-> kind, fmt |-> fmt, h |-> h, place |-> "", sp |-> FALSE]
@@ -170,7 +180,7 @@ NotSolved == [is |-> FALSE, horizon |-> 0]
 EmptyHolder == [n \in {} |-> [len |-> 0, kind |-> "int"]]
 
 Init == /\ phase = "build" /\ holder = EmptyHolder /\ solved = NotSolved
-        /\ table = NoTable /\ stated = Unstated /\ conds = {} /\ hist = << >>
+        /\ table = NoTable /\ stated = Unstated /\ conds = {} /\ opts = NoOpts /\ hist = << >>
 
 Put(n, len, kind) ==
     /\ n \in DOMAIN holder => len > holder[n].len
@@ -178,38 +188,51 @@ Put(n, len, kind) ==
     /\ holder' = PutOp(holder, n, len, kind)
     /\ table' = NoTable /\ solved' = NotSolved
     /\ hist' = Append(hist, Op("put", n, len, kind, "", 0))
-    /\ UNCHANGED << phase, stated, conds >>
+    /\ UNCHANGED << phase, stated, conds, opts >>
 
 Store(n, len, kind) ==
     /\ Cardinality(DOMAIN holder \cup {n}) <= MaxNames
     /\ holder' = StoreOp(holder, n, len, kind)
     /\ table' = NoTable /\ solved' = NotSolved
     /\ hist' = Append(hist, Op("store", n, len, kind, "", 0))
-    /\ UNCHANGED << phase, stated, conds >>
+    /\ UNCHANGED << phase, stated, conds, opts >>
 
 Delete(n) ==
     /\ n \in DOMAIN holder
     /\ holder' = DeleteOp(holder, n)
     /\ table' = NoTable /\ solved' = NotSolved
     /\ hist' = Append(hist, Op("del", n, 0, "int", "", 0))
-    /\ UNCHANGED << phase, stated, conds >>
+    /\ UNCHANGED << phase, stated, conds, opts >>
 
 List ==
     /\ hist' = Append(hist, Op("list", << >>, 0, "int", "", 0))
-    /\ UNCHANGED << phase, holder, solved, table, stated, conds >>
+    /\ UNCHANGED << phase, holder, solved, table, stated, conds, opts >>
 
 Condition(n, sp) ==
     /\ phase = "build"
     /\ conds' = conds \cup {[name |-> n, sp |-> sp]}
     /\ hist' = Append(hist, [Op("cond", n, 0, "num", "", 0) EXCEPT !.sp = sp])
-    /\ UNCHANGED << phase, holder, solved, table, stated >>
+    /\ UNCHANGED << phase, holder, solved, table, stated, opts >>
+
+SetTrace(w) ==
+    /\ phase = "build"
+    /\ w = "inside" => Effective(stated) >= 1
+    /\ opts' = [opts EXCEPT !.trace = w]
+    /\ hist' = Append(hist, [Op("trace", << >>, 0, "int", "", 0) EXCEPT !.place = w])
+    /\ UNCHANGED << phase, holder, solved, table, stated, conds >>
+
+SetSteady ==
+    /\ phase = "build"
+    /\ opts' = [opts EXCEPT !.steady = TRUE]
+    /\ hist' = Append(hist, Op("steady", << >>, 0, "int", "", 0))
+    /\ UNCHANGED << phase, holder, solved, table, stated, conds >>
 
 StateHorizon(place, h) ==
     /\ phase = "build"
     /\ stated' = IF place = "solver" THEN [stated EXCEPT !.solver = [is |-> TRUE, h |-> h]]
                                      ELSE [stated EXCEPT !.block = [is |-> TRUE, h |-> h]]
     /\ hist' = Append(hist, [Op("horizon", << >>, 0, "int", "", h) EXCEPT !.place = place])
-    /\ UNCHANGED << phase, holder, solved, table, conds >>
+    /\ UNCHANGED << phase, holder, solved, table, conds, opts >>
 
 (* SetInitialConditions gives every variable one value; each step appends one to every series *)
 Solve(vs) ==
@@ -220,7 +243,7 @@ Solve(vs) ==
     /\ phase' = "run"
     /\ table' = NoTable
     /\ hist' = Append(hist, Op("solve", << >>, 0, "num", "", Effective(stated)))
-    /\ UNCHANGED << stated, conds >>
+    /\ UNCHANGED << stated, conds, opts >>
 
 SolveFailed(obs) ==
     /\ phase = "build"
@@ -229,13 +252,13 @@ SolveFailed(obs) ==
     /\ phase' = "run"
     /\ table' = NoTable
     /\ hist' = Append(hist, Op("solvefail", << >>, 0, "num", "", 0))
-    /\ UNCHANGED << stated, conds >>
+    /\ UNCHANGED << stated, conds, opts >>
 
 Render(fmt) ==
     /\ fmt \in IntOnlyFormats => AllInt(holder)
     /\ table' = RenderOp(holder, fmt)
     /\ hist' = Append(hist, Op("render", << >>, 0, "int", fmt, 0))
-    /\ UNCHANGED << phase, holder, solved, stated, conds >>
+    /\ UNCHANGED << phase, holder, solved, stated, conds, opts >>
 
 Next == /\ Len(hist) < MaxOps
         /\ \/ \E n \in Names, len \in 0..MaxLen, kind \in Kinds : Put(n, len, kind) \/ Store(n, len, kind)
@@ -243,6 +266,8 @@ Next == /\ Len(hist) < MaxOps
            \/ List
            \/ \E n \in Names, sp \in BOOLEAN : Condition(n, sp)
            \/ \E h \in Horizons, pl \in Places : StateHorizon(pl, h)
+           \/ \E w \in TraceWheres : SetTrace(w)
+           \/ SetSteady
            \/ Solve({})
            \/ \E i \in 1..Len(FormatSeq) : Render(FormatSeq[i])
 
@@ -266,5 +291,5 @@ TypeOK == /\ phase \in {"build", "run"}
           /\ Cardinality(DOMAIN holder) <= MaxNames + 2
           /\ Len(hist) <= MaxOps
           /\ solved.is => solved.horizon = Effective(stated)
-          /\ table.done => hist # << >> /\ hist[Len(hist)].op \in ObsOps \cup {"horizon", "cond"}
+          /\ table.done => hist # << >> /\ hist[Len(hist)].op \in ObsOps \cup {"horizon", "cond", "trace", "steady"}
 =============================================================================
